@@ -306,6 +306,9 @@ def refract(n, nprime, S, r):
         Sprime, a length 3 vector containing the exitant direction cosines
 
     """
+    # r is the surface gradient (-Fx, -Fy, 1), which is not a unit vector;
+    # the vector form of Snell's law requires the unit normal (cf. reflect)
+    r = r / np.sqrt(_multi_dot(r, r))[:, np.newaxis]
     mu = n/nprime
     musq = mu * mu
     cosI = _multi_dot(r, S)
